@@ -42,6 +42,14 @@ class WANoiseProtocolHandshakeWorker(threading.Thread):
             self._protocol.start(self._stream, self._client_config, self._s, self._rs)
         except HandshakeFailedException as e:
             error = e
+        except Exception as e:
+            # a reply that is not even well-formed (no server hello in it, a key of the wrong length) fails the attempt just
+            # like one that does not authenticate: without this the thread ended silently and the login hung
+            if self._protocol.state != WANoiseProtocol.STATE_HANDSHAKE:
+                # the handshake itself was over: whatever failed while the first frames were handed upward is not a login failure
+                raise
+            logger.exception(e)
+            error = e
 
         if self._finish_callback is not None:
             self._finish_callback(error)
